@@ -19,6 +19,7 @@ if [ -n "$SUITE" ]; then SUITE=$(go test -vet=off -count=1 ./... 2>&1 | grep -v 
 echo "suite-with-change: ${SUITE:-PASS}"
 cp $OUT/demo${N}_test.go $WT/$PKG/zz_demo${N}_test.go
 RACE=""; grep -qi "race" $OUT/notes$N.md 2>/dev/null && RACE="-race"
+grep -q "tags verif\|go:build verif" $OUT/demo${N}_test.go $OUT/notes$N.md 2>/dev/null && RACE="$RACE -tags verif"
 TESTS="$(grep -o 'func Test[A-Za-z0-9_]*' $WT/$PKG/zz_demo${N}_test.go | sed 's/func //' | paste -sd'|')"
 ( cd $WT/$PKG && go test $RACE -vet=off -count=1 -run "$TESTS" . > $OUT/demo$N.with.log 2>&1 ); echo "demo-with-change exit=$? (want !=0)"
 rm -f $WT/$PKG/zz_demo${N}_test.go
